@@ -39,6 +39,7 @@ type Interp struct {
 	// watchShared > 0: stores into objects that existed before the harness started (package-level state and what it
 	// reaches: allocated during package initialisation) are recorded as findings (verifShared)
 	watchShared  int
+	sharedLimit  int // objects with an id up to this one existed when verifShared was entered
 	sharedSeen   map[string]bool
 }
 
@@ -472,7 +473,7 @@ func (fr *frame) runBlock() {
 			if p.isNil() {
 				panic(goPanic{val: "invalid memory address or nil pointer dereference (store)", where: in.where(ins)})
 			}
-			if in.watchShared > 0 && p.obj.id <= in.eng.snapNextID {
+			if in.watchShared > 0 && p.obj.id <= in.sharedLimit {
 				in.noteSharedWrite(p.obj.typ, fr)
 			}
 			p.store(fr.get(x.Val))
@@ -481,7 +482,7 @@ func (fr *frame) runBlock() {
 			if m == nil {
 				panic(goPanic{val: "assignment to entry in nil map", where: in.where(ins)})
 			}
-			if in.watchShared > 0 && m.id <= in.eng.snapNextID {
+			if in.watchShared > 0 && m.id <= in.sharedLimit {
 				in.noteSharedWrite(x.Map.Type(), fr)
 			}
 			in.mapSet(m, fr.get(x.Key), fr.get(x.Value))
